@@ -117,24 +117,65 @@ Section Generic.
     n_incomplete (fst (step P cf st (EAccept c))) <= max_incomplete cf.
   Proof. exact (setup_assertion_holds P cf). Qed.
 
+  (*    timed: a tick drops exactly the connections that have not registered within auth_timeout —
+        never a registered one, never a younger one *)
+  Theorem C10_expiry_exact : forall (st : state A S) d, Inv cf st ->
+    s_conns (fst (step P cf st (ETick d))) =
+    filter (fun x => c_active x || (s_now st + d - c_since x <? auth_timeout cf)) (s_conns st).
+  Proof. exact (tick_exact P cf). Qed.
+
   (* 5. the correspondence run's environment performs steps of this model only *)
   Theorem C10_env_run_is_run : forall (es : estate (A:=A) (S:=S)) h,
     record_of P cf (e_bus es) (e_bus (fst (env_run P cf es h))) (concat (snd (env_run P cf es h))).
   Proof. exact (env_run_is_run P cf). Qed.
 End Generic.
 
-(* 6. Abrupt close with anything outstanding (extracted instance: names, pending replies,
-      monitors): after bus_connection_disconnected / free_connection_data no pending-reply
-      entry mentions the connection on either side — a call it made to itself included —,
-      it is in no monitor list and has no unique name; and no NoReply is ever addressed to the
-      connection that has just gone. *)
+(* 6. Teardown (extracted instance; bus_connection_disconnected in its C order: match rules,
+      names last-acquired-first, monitors, completed list / per-uid count, pending replies).
+      CLEANUP: afterwards no table of the bus mentions the connection — pending replies on either
+      side (a call it made to itself included), monitors, the completed list, unique names,
+      services_owned records, match rules, and (in every reachable state, where services_owned
+      covers the queues) no owner queue of any name. *)
 Theorem C10_close_cleans_up : forall (k : mstate) c active,
   let k' := fst (mini_disconnect k c active) in
   (forall p, In p (m_pend k') -> fst (fst p) <> c /\ snd (fst p) <> c) /\
   ~ In c (m_mons k') /\
+  ~ In c (m_completed k') /\
   (forall p, In p (m_uniq k') -> fst p <> c) /\
-  (forall p, In p (m_acq k') -> fst p <> c).
+  (forall p, In p (m_acq k') -> fst p <> c) /\
+  (forall p, In p (m_rules k') -> fst p <> c) /\
+  (owned_covers k -> forall n, ~ In c (queue_of (m_names k') n)).
 Proof. exact disconnect_cleans_up. Qed.
+
+(*    the premise of the last item holds in every state the bus can reach *)
+Theorem C10_owned_covers_reachable : forall uid cf base mu mr h,
+  owned_covers (s_core (fst (run (mini_ops uid) cf (init (mini_core base mu mr)) h))).
+Proof. exact reachable_covers. Qed.
+
+(*    the slot in n_completed / the per-uid count that bus_connections_check_limits reads is released *)
+Theorem C10_close_releases_slot : forall (k : mstate) c active,
+  In c (m_completed k) -> NoDup (m_completed k) -> n_users (fst (mini_disconnect k c active)) + 1 = n_users k.
+Proof. exact disconnect_releases_slot. Qed.
+
+(*    FRAME: every other connection keeps its unique name, rules, records, list memberships, pending
+      replies not involving c, and its place in every queue *)
+Theorem C10_close_frame : forall (k : mstate) c active,
+  let k' := fst (mini_disconnect k c active) in
+  (forall p, fst p <> c -> (In p (m_uniq k') <-> In p (m_uniq k))) /\
+  (forall p, fst p <> c -> (In p (m_rules k') <-> In p (m_rules k))) /\
+  (forall p, fst p <> c -> (In p (m_acq k') <-> In p (m_acq k))) /\
+  (forall d, d <> c -> (In d (m_mons k') <-> In d (m_mons k)) /\ (In d (m_completed k') <-> In d (m_completed k))) /\
+  (forall p, fst (fst p) <> c -> snd (fst p) <> c -> (In p (m_pend k') <-> In p (m_pend k))) /\
+  (forall n, filter (not_c c) (queue_of (m_names k') n) = filter (not_c c) (queue_of (m_names k) n)) /\
+  m_next k' = m_next k /\ m_maxuser k' = m_maxuser k /\ m_maxrules k' = m_maxrules k /\ m_baseusers k' = m_baseusers k.
+Proof. exact disconnect_frame. Qed.
+
+(*    OUTPUTS: nothing is said but NameOwnerChanged of names c headed, the departure of c's unique name,
+      and NoReply to a DIFFERENT connection that really had a call outstanding to c *)
+Theorem C10_close_outputs_prescribed : forall (k : mstate) c active x, In x (snd (mini_disconnect k c active)) ->
+  (exists n new, x = (MON, Noc n c new)) \/ x = (MON, Bye c) \/
+  (exists a s, x = (MON, NoReply a s) /\ a <> c /\ In (a, c, s) (m_pend k)).
+Proof. exact disconnect_outputs_prescribed. Qed.
 
 Theorem C10_no_error_to_departed : forall (k : mstate) c active to s,
   In (MON, NoReply to s) (snd (mini_disconnect k c active)) -> to <> c /\ In (to, c, s) (m_pend k).
@@ -158,6 +199,11 @@ Print Assumptions C10_setup_assertion_holds.
 Print Assumptions C10_env_run_is_run.
 Print Assumptions C10_loader_nothing_after_corruption.
 Print Assumptions C10_close_cleans_up.
+Print Assumptions C10_owned_covers_reachable.
+Print Assumptions C10_close_releases_slot.
+Print Assumptions C10_close_frame.
+Print Assumptions C10_close_outputs_prescribed.
+Print Assumptions C10_expiry_exact.
 Print Assumptions C10_no_error_to_departed.
 
 (* ---- non-vacuity: the extracted instance on a concrete attack ------------------- *)
